@@ -2,7 +2,7 @@
 import re
 
 # always appended (helpers): file -> hosting source
-ALWAYS = {'src/lib.rs': ['kcommon.rs'], 'src/datatype.rs': ['kdt.rs']}
+ALWAYS = {'src/lib.rs': ['kcommon.rs'], 'src/datatype.rs': ['kdt.rs'], 'src/cfb.rs': ['kcfb.rs']}
 
 DEFAULT = dict(arena=256, alloc='lazy', timeout=600, mem_gb=8.0, weight=1)
 
@@ -38,12 +38,25 @@ PROPS = {
         outside=['Range<Data>/Range<String> instantiations (same generic code; Clone/Drop of the element differ)', 'rectangles larger than 3x3', 'u32 overflow of huge rectangles (C06)'],
         assumptions=['from_sparse input is sorted by row (documented precondition)', 'set_value target is at or beyond the start corner (documented precondition)'],
     ),
+    'C14': dict(
+        level_text='Bounded model checking of the column-lettering routine for every column (by letter count) and of the xls/xlsb Ptg token renderers on token-sequence shapes (operands with symbolic column/flags/sheet index and concrete representative rows, unary/binary operators, parentheses, fixed- and variable-arity functions) against a byte-exact A1 rendering reference.',
+        hosts={'src/utils.rs': ['c14_utils.rs'], 'src/xls.rs': ['c14_xls.rs'], 'src/xlsb/mod.rs': ['c14_xlsb.rs']},
+        functions=['utils::push_column', 'utils::FTAB/FTAB_ARGC', 'xls::parse_formula', 'xls::push_area/push_area_corner', 'xlsb::parse_formula', 'xlsb::push_area_corner'],
+        stubs=['utils::push_column -> k_kcommon::model_push_column_l{1,2,3} inside the token-rendering harnesses (the real push_column is decided against the same closed form by c14_*_push_column_*)'],
+        bounds={'push_column': 'all columns 0..16383 quick (0..65535 thorough), one query per letter count',
+                'tokens': 'one token sequence per harness (concrete token ids, concrete representative rows {0,4,8,9,98,65534,65535 | 0,9,1048575}), columns symbolic within a letter-count class, relative bits / sheet index / XTI contents / literal bytes symbolic'},
+        outside=['xlsx/ods formula text (XML)', 'formula cell positions (inline in zip/XML-bound readers)', 'string literals (PtgStr: encoding_rs)', 'PtgNum (float formatting)', 'operator/function composition in the quick tier (String::split_off/insert/write! exceed 20 GB; attempted in thorough)', 'rows other than the representatives'],
+        assumptions=[],
+    ),
 }
 
 # (regex on harness name, overrides). First match wins after defaults.
 RULES = [
-    (r'_twin$', dict(expect='fail', weight=0)),
+    (r'_twin(_\w+)?$', dict(expect='fail', weight=0)),
     (r'^c02_t_rk_', dict(timeout=1800, weight=9)),
+    (r'^c14_[qt]_push_column', dict(arena=64, mem_gb=14.0, timeout=1200, weight=9)),
+    (r'^c14_[qt]_xlsb?_(binop|funcvar|unary)', dict(arena=64, mem_gb=20.0, timeout=900, weight=8)),
+    (r'^c14_[qt]_xls', dict(arena=64)),
 ]
 
 DESCRIBE = {}
